@@ -634,3 +634,51 @@ func init() {
 		}
 	})
 }
+
+// ---------- math/bits (compact terms instead of 256-way table lookups) ----------
+
+func bitLen(x *Term) *Term {
+	w := x.S.W
+	if x.IsConst() {
+		n := 0
+		for v := x.Lo; v != 0; v >>= 1 {
+			n++
+		}
+		return BVConst(uint64(n), 64)
+	}
+	res := BVConst(0, 64)
+	for i := 0; i < w; i++ {
+		// highest set bit wins: build from low to high
+		bit := Eq(Extract(x, i, i), BVConst(1, 1))
+		res = Ite(bit, BVConst(uint64(i+1), 64), res)
+	}
+	return res
+}
+
+func trailingZeros(x *Term) *Term {
+	w := x.S.W
+	res := BVConst(uint64(w), 64)
+	for i := w - 1; i >= 0; i-- {
+		bit := Eq(Extract(x, i, i), BVConst(1, 1))
+		res = Ite(bit, BVConst(uint64(i), 64), res)
+	}
+	return res
+}
+
+func init() {
+	extraIntrinsics = append(extraIntrinsics, func(in *Interp) {
+		r := in.intr
+		for _, n := range []string{"Len", "Len64", "Len32", "Len16", "Len8"} {
+			r["math/bits."+n] = func(in *Interp, fr *Frame, a []V) V { return bitLen(a[0].(*Term)) }
+		}
+		for _, n := range []string{"LeadingZeros", "LeadingZeros64", "LeadingZeros32", "LeadingZeros16", "LeadingZeros8"} {
+			r["math/bits."+n] = func(in *Interp, fr *Frame, a []V) V {
+				x := a[0].(*Term)
+				return BV2(OpBVSub, BVConst(uint64(x.S.W), 64), bitLen(x))
+			}
+		}
+		for _, n := range []string{"TrailingZeros", "TrailingZeros64", "TrailingZeros32", "TrailingZeros16", "TrailingZeros8"} {
+			r["math/bits."+n] = func(in *Interp, fr *Frame, a []V) V { return trailingZeros(a[0].(*Term)) }
+		}
+	})
+}
